@@ -374,8 +374,8 @@ func RunProperty(cfg Config) int {
 	os.MkdirAll(filepath.Join(cfg.Verif, "evidence"), 0o755)
 	b, _ := json.MarshalIndent(ev, "", " ")
 	os.WriteFile(filepath.Join(cfg.Verif, "evidence", cfg.Prop+".json"), b, 0o644)
-	fmt.Printf("%s %s: paths=%d obligations=%d decided=%d violations=%d known=%d witness_ok=%d queries(feas=%d assert=%d cachehit=%d summaries=%d/%d) solver=%.1fs wall=%.1fs exit=%d\n",
-		cfg.Prop, cfg.Tier, states, totalObl, decided, violations, len(knownHit), validated, r.Stats.FeasQueries, r.Stats.AssertQueries, r.Stats.CacheHits, r.Stats.Summaries, r.Stats.SummaryHits, r.SolverS, time.Since(t0).Seconds(), exit)
+	fmt.Printf("%s %s: paths=%d obligations=%d decided=%d violations=%d known=%d witness_ok=%d queries(feas=%d assert=%d cachehit=%d summaries=%d/%d) solver=%.1fs(io %.1fs) wall=%.1fs exit=%d\n",
+		cfg.Prop, cfg.Tier, states, totalObl, decided, violations, len(knownHit), validated, r.Stats.FeasQueries, r.Stats.AssertQueries, r.Stats.CacheHits, r.Stats.Summaries, r.Stats.SummaryHits, r.SolverS, r.SolverIO, time.Since(t0).Seconds(), exit)
 	return exit
 }
 
